@@ -606,12 +606,20 @@ pub fn soup_token(src: &mut Src, family: Family, jets: &[JetRef]) -> String {
             }
         }
         5 => {
-            // CMR literals
-            match src.below(4) {
+            // CMR literals (right and wrong lengths), alone or where the grammar wants one
+            let lit = match src.below(6) {
                 0 => format!("#{}", hex(&src.bytes(32))),
                 1 => format!("#{}", hex(&src.bytes(32)).to_uppercase()),
                 2 => format!("#{}", hex(&src.bytes(31))),
-                _ => ["#", "#abc", "# {", "#}"][src.below(4)].into(),
+                3 => format!("#{}", hex(&src.bytes(33))),
+                4 => format!("#{}{}", hex(&src.bytes(31)), ["", "a", "abc"][src.below(3)]),
+                _ => ["#", "#abc", "# {", "#}", "#0", "#abcd1234"][src.below(6)].into(),
+            };
+            match src.below(4) {
+                0 => format!("assertl unit {}", lit),
+                1 => format!("assertr {} unit", lit),
+                2 => format!("(assertl (take unit) {})", lit),
+                _ => lit,
             }
         }
         6 => ["2^1", "2^2", "2^4", "2^8", "2^16", "2^32", "2^64", "2^128", "2^256", "2^512", "2^1024", "2^3", "2^0", "2^01", "2^99999999999", "2^4294967296", "2^", "^", "2^2^2"][src.below(19)].into(),
